@@ -143,12 +143,13 @@ def build_plugin(rh):
     return None
 
 
-def run_batch(cache, idx, seed, plugin, scale, profile):
+def run_batch(cache, idx, seed, plugin, scale, profile, case=None):
     d = f'{cache}/b{idx}'
     if os.path.exists(f'{d}/status.json') and os.path.exists(f'{d}/done'):
         return d
-    rc, out, err = sh([BIN, 'batch', '-seed', str(seed), '-index', str(idx), '-work', d, '-plugin', plugin,
-                       '-scale', str(scale), '-profile', json.dumps(profile)], cwd=HARNESS, timeout=1800)
+    rc, out, err = sh([BIN, 'batch', '-seed', str(seed), '-index', str(idx if case is None else 0), '-work', d, '-plugin', plugin,
+                       '-scale', str(scale), '-profile', json.dumps(profile)] + (['-case', case] if case else []),
+                      cwd=HARNESS, timeout=1800)
     if not os.path.exists(f'{d}/status.json'):
         os.makedirs(d, exist_ok=True)
         json.dump({'stage': 'crash', 'error': (out + err)[-3000:]}, open(f'{d}/status.json', 'w'))
@@ -189,6 +190,12 @@ def get_batches(tier, seed):
             shutil.rmtree(old, ignore_errors=True)
     with concurrent.futures.ThreadPoolExecutor(max_workers=8) as ex:
         futs = [ex.submit(run_batch, cache, i, seed, plugin_path(rh), scale, PROFILES[i % len(PROFILES)]) for i in range(n)]
+        # the deterministic shape-coverage case (corpus/sink.json: every template in every position), under two profiles
+        # (all profiles in the thorough tier); its operations are still drawn from VERIF_SEED
+        sink = f'{VERIF}/corpus/sink.json'
+        sink_profiles = [{}, {'Sort': 1, 'SeparatePackage': 'auto'}] if tier == 'quick' else PROFILES[:5]
+        for k, prof in enumerate(sink_profiles):
+            futs.append(ex.submit(run_batch, cache, f'sink{k}', seed, plugin_path(rh), scale, prof, sink))
         dirs = [f.result() for f in futs]
     return dirs, {'repoHash': rh, 'machineryHash': mh, 'cache': cache}
 
